@@ -121,13 +121,20 @@ type opGen struct {
 	g   *rng
 	cfg Config
 	uni []int // the case's preferred atoms (ranks)
+
+	forbid map[int]bool // atoms that must not be generated (NaN for the Go-map backed kinds)
 }
 
 func (c *opGen) atom() int {
-	if c.g.chance(80) {
-		return c.uni[c.g.intn(len(c.uni))]
+	for {
+		r := c.g.intn(poolN)
+		if c.g.chance(80) {
+			r = c.uni[c.g.intn(len(c.uni))]
+		}
+		if !c.forbid[r] {
+			return r
+		}
 	}
-	return c.g.intn(poolN)
 }
 
 func (c *opGen) atoms(lo, hi int) []int {
